@@ -1,22 +1,110 @@
+// tabverif: repository-specific static checker for PennockTech/tabular.
+// It decides (structural necessary conditions of) the properties C01..C19 of
+// /verif/properties.jsonl from the type-checked SSA form of /repo's working
+// tree.  It never executes tabular code.  See /verif/DESIGN.md.
 package main
 
 import (
+	"flag"
 	"fmt"
-	"golang.org/x/tools/go/callgraph/cha"
-	"golang.org/x/tools/go/callgraph/vta"
-	"golang.org/x/tools/go/packages"
-	"golang.org/x/tools/go/ssa"
-	"golang.org/x/tools/go/ssa/ssautil"
+	"go/types"
+	"os"
+	"runtime/debug"
+	"sort"
+	"strconv"
 )
 
+type propDef struct {
+	run func(c *Ctx)
+}
+
+var props = map[string]propDef{}
+
+func register(id string, run func(c *Ctx)) { props[id] = propDef{run} }
+
 func main() {
-	cfg := &packages.Config{Mode: packages.LoadAllSyntax, Dir: "/repo"}
-	pkgs, err := packages.Load(cfg, "./...")
-	if err != nil {
-		panic(err)
+	prop := flag.String("prop", "", "property id (C01..C19)")
+	tier := flag.String("tier", "quick", "quick|thorough")
+	repo := flag.String("repo", "/repo", "tabular source tree")
+	out := flag.String("out", "", "evidence file to write")
+	known := flag.String("known", "", "known-findings file")
+	goarch := flag.String("goarch", "", "GOARCH for loading")
+	tags := flag.String("tags", "", "build tags for loading")
+	dump := flag.String("dump", "", "debug: dump obligations of this engine")
+	flag.Parse()
+	seed := 0
+	if s := os.Getenv("VERIF_SEED"); s != "" {
+		seed, _ = strconv.Atoi(s)
 	}
-	prog, spkgs := ssautil.AllPackages(pkgs, ssa.InstantiateGenerics)
-	prog.Build()
-	cg := vta.CallGraph(ssautil.AllFunctions(prog), cha.CallGraph(prog))
-	fmt.Println(len(pkgs), len(spkgs), len(cg.Nodes))
+	if *prop == "list" {
+		ids := []string{}
+		for id := range props {
+			ids = append(ids, id)
+		}
+		sort.Strings(ids)
+		for _, id := range ids {
+			fmt.Println(id)
+		}
+		return
+	}
+	pd, ok := props[*prop]
+	if !ok {
+		fatalf("unknown property %q", *prop)
+	}
+	r := NewReport(*prop, *tier, seed)
+	if *known != "" {
+		r.LoadKnown(*known)
+	}
+	code := 2
+	func() {
+		defer func() {
+			if e := recover(); e != nil {
+				fmt.Fprintf(os.Stderr, "tabverif: internal panic: %v\n%s", e, debug.Stack())
+				fmt.Printf("VIOLATION property=%s replay=%s\n", *prop, *out)
+				code = 1
+			}
+		}()
+		c := Load(*repo, *goarch, *tags)
+		c.R = r
+		r.c = c
+		c.Tier = *tier
+		c.Dump = *dump
+		c.indexFields()
+		pd.run(c)
+		code = r.Finish(*out)
+	}()
+	os.Exit(code)
+}
+
+// indexFields records, for every struct field of a module named type, "Type.field".
+func (c *Ctx) indexFields() {
+	c.fieldOwner = map[*types.Var]string{}
+	for _, p := range c.Pkgs {
+		sc := p.Types.Scope()
+		for _, name := range sc.Names() {
+			tn, ok := sc.Lookup(name).(*types.TypeName)
+			if !ok {
+				continue
+			}
+			st, ok := tn.Type().Underlying().(*types.Struct)
+			if !ok {
+				continue
+			}
+			for i := 0; i < st.NumFields(); i++ {
+				c.fieldOwner[st.Field(i)] = tn.Name() + "." + st.Field(i).Name()
+			}
+		}
+		// package-level vars of anonymous struct type (decoration.registry)
+		for _, name := range sc.Names() {
+			v, ok := sc.Lookup(name).(*types.Var)
+			if !ok {
+				continue
+			}
+			if st, ok := v.Type().(*types.Struct); ok {
+				for i := 0; i < st.NumFields(); i++ {
+					c.fieldOwner[st.Field(i)] = v.Name() + "." + st.Field(i).Name()
+				}
+			}
+		}
+	}
 }
